@@ -61,6 +61,14 @@ def _decode_err(e, out):
     return out
 
 
+def to_node(j):
+    """JSON form [var, [[role, target], ...]] (or a tuple already) -> tree node tuple."""
+    if isinstance(j, tuple):
+        return j
+    var, branches = j
+    return (var, [(r, to_node(t) if isinstance(t, (list, tuple)) else t) for r, t in branches])
+
+
 # ---------------------------------------------------------------- lexer (C08)
 def tr_lex(text=None, triple=False, lines=None):
     pat = _lexer.TRIPLE_RE if triple else _lexer.PENMAN_RE
@@ -121,6 +129,7 @@ def tr_ptriples(text):
 # ------------------------------------------------------------ formatter (C01)
 def tr_format(node, meta, indent, compact, via_codec=False):
     """indent: int or None (-2 in the trace)."""
+    node = to_node(node)
     ft = ab.check_tree_roundtrip(node, meta)
     t = {'kind': 'format', 'tree': ft, 'indent': -2 if indent is None else indent,
          'compact': compact, 'exc': '', 'text': '', 're': {'ok': False, 'exc': 'not run'}, 'text2': ''}
